@@ -87,6 +87,12 @@ CLAIMS = {
         text='The size guard, normalised as len(firmware) - page_size*page_count > 0 -> SystemExit, precedes every DNLOAD/CLRSTATUS request on every path; wherever the polled status is compared with STATUS_OK the bad edge must leave through a non-zero, non-empty exit and send nothing more; '
              'every erase and data request has its polled status tested before the next request or the end.',
         note='Not decided: device errors that surface only as USB stalls; errors during SET_ADDRESS. Trusted: CPython ast, bbverif pathwalk/poly.'),
+    'C17': dict(
+        category='other', design='DESIGN.md §4 C17',
+        technique='side-effect ordering (ASM / write-open / failing-exit events) on symbolically enumerated paths of asm.cli_main; def-use of the written values',
+        text='On every path through cli_main no failing exit is reachable after a file has been opened for writing and assemble() precedes every write (no-clobber); the -o handle is binary and receives exactly the value returned by assemble once; '
+             'the -l lines come from items() of the very dict passed as labels=; bin2hex runs after the binary is closed with int(hex_offset, 0); AssemblerError becomes a failing SystemExit and no handler swallows an error; -c/-i wiring.',
+        note='Not decided: OS-level write failures between the files; correctness of intelhex.bin2hex. Trusted: CPython ast, bbverif pathwalk.'),
 }
 
 NOT_YET = 'check not built yet (framework under construction)'
